@@ -3,7 +3,8 @@
      0  decoder      [0; frames?; wire; cuts; obs]
      1  FrameStream  [1; reader_tid; reader_weof; writer_tids; ops; caps; dcap; wire; wres; reads; term; final; broken]
      2  tunnel ids   [2; string; wire id; TunnelIDToString(wire id)]
-     3  forwarder    [3; upload chunks; download chunks; schedule; up_mid; down_mid; up_final; down_final]
+     3  forwarder    [3; upload chunks; download chunks; schedule; up_mid; down_mid; up_final; down_final; eof flags; counters]
+     4  forwarder + chunk oracle + FrameStream  [4; data; cuts; eofl; answer; peer_got; local_got; counters ...]
                      (gated replay of a schedule on the real runBidirectionalForward, Model/Forward.v) *)
 From TX Require Import Base.Val Model.CrossFrame Model.Forward Gen.C10.
 Open Scope N_scope.
@@ -110,21 +111,51 @@ Definition check_stream (v : tval) : bool :=
 Definition check_tid (v : tval) : bool :=
   bytes_eqb (wire_id (vb (vnth 1 v))) (vb (vnth 2 v)) && bytes_eqb (id_to_string (vb (vnth 2 v))) (vb (vnth 3 v)).
 
-(* ---- runBidirectionalForward under a schedule ---- *)
+(* ---- runBidirectionalForward under a schedule ----
+   [3; up chunks; down chunks; schedule; up_mid; down_mid; up_final; down_final; up_eofl; down_eofl; counters?; sent; recv] *)
 Definition fwd_mid (v : tval) : fsh * list flo :=
-  frun false (finit [] [] (map vb (vl (vnth 1 v))) (map vb (vl (vnth 2 v)))) (map vnat (vl (vnth 3 v))).
+  frun false (finit_e (vbool (vnth 8 v)) (vbool (vnth 9 v)) [] [] (map vb (vl (vnth 1 v))) (map vb (vl (vnth 2 v))))
+       (map vnat (vl (vnth 3 v))).
+Definition drain (n : nat) : list nat := flat_map (fun _ => [0; 1]%nat) (seq 0 n).
 Definition fwd_final (v : tval) : fsh * list flo :=
-  let n := (2 * (length (vl (vnth 1 v)) + length (vl (vnth 2 v))) + 2)%nat in
-  frun false (fwd_mid v) (flat_map (fun _ => [0; 1]%nat) (seq 0 n)).
+  frun false (fwd_mid v) (drain (2 * (length (vl (vnth 1 v)) + length (vl (vnth 2 v))) + 2)).
+Definition both_done (s : fsh * list flo) : bool :=
+  match phase_of 0 s, phase_of 1 s with PDone, PDone => true | _, _ => false end.
 Definition check_fwd (v : tval) : bool :=
   bytes_eqb (sink_up (fwd_mid v)) (vb (vnth 4 v)) && bytes_eqb (sink_down (fwd_mid v)) (vb (vnth 5 v))
   && bytes_eqb (sink_up (fwd_final v)) (vb (vnth 6 v)) && bytes_eqb (sink_down (fwd_final v)) (vb (vnth 7 v))
-  && match phase_of 0 (fwd_final v), phase_of 1 (fwd_final v) with PDone, PDone => true | _, _ => false end.
+  && both_done (fwd_final v)
+  && (negb (vbool (vnth 10 v))
+      || ((N.of_nat (sent_counter (fwd_final v)) =? vn (vnth 11 v)) && (N.of_nat (recv_counter (fwd_final v)) =? vn (vnth 12 v)))).
+
+(* ---- oracle-chunked local source -> forwarder -> FrameStream -> peer, and the peer's answer back ----
+   [4; data; cuts; eofl; peer's Write payloads; peer_got; local_got; counters?; sent; recv; tunnel id string]
+   composition of both models: the local source is the chunk oracle read with io.Copy's 32 KB buffer; every chunk
+   becomes one FrameStream.Write; the peer's FrameStream reads it; the answer travels the same way back *)
+Definition copy_buf : N := 32768.
+Record cutobs := { co_peer : list N; co_local : list N; co_sent : N; co_recv : N; co_done : bool }.
+Definition model_fwdcut (v : tval) : cutobs :=
+  let data := vb (vnth 1 v) in
+  let tid := wire_id (vb (vnth 10 v)) in
+  let upc := oracle_chunks (length data) copy_buf (mkrd data (map vnat (vl (vnth 2 v)))) in
+  let wire_d := encode_all M (script_frames M tid false (map WWrite (map vb (vl (vnth 4 v))) ++ [WClose])) in
+  let '(ld, _, _) := read_stream M tid true [] (N.to_nat copy_buf) wire_d [] in
+  let downc := flat_map (fun x => match x with RData d => [d] | _ => [] end) ld in
+  let fin := frun false (finit_e (vbool (vnth 3 v)) false [] [] upc downc) (drain (2 * (length upc + length downc) + 2)) in
+  let wire_u := encode_all M (script_frames M tid false (map WWrite upc ++ [WCloseWrite])) in
+  let '(lu, _, _) := read_stream M tid false [] 512 wire_u [] in
+  {| co_peer := if bytes_eqb (sink_up fin) (concat upc) then data_of lu else [];
+     co_local := sink_down fin; co_sent := N.of_nat (sent_counter fin); co_recv := N.of_nat (recv_counter fin);
+     co_done := both_done fin |}.
+Definition check_fwdcut (v : tval) : bool :=
+  let m := model_fwdcut v in
+  co_done m && bytes_eqb (co_peer m) (vb (vnth 5 v)) && bytes_eqb (co_local m) (vb (vnth 6 v))
+  && (negb (vbool (vnth 7 v)) || ((co_sent m =? vn (vnth 8 v)) && (co_recv m =? vn (vnth 9 v)))).
 
 Definition check (v : tval) : bool :=
   let k := vn (vnth 0 v) in
   if k =? 0 then check_dec v else if k =? 1 then check_stream v else if k =? 2 then check_tid v
-  else if k =? 3 then check_fwd v else false.
+  else if k =? 3 then check_fwd v else if k =? 4 then check_fwdcut v else false.
 
 Definition enc_dec (m : dres * N) : tval :=
   match fst m with
@@ -138,6 +169,8 @@ Definition predict (v : tval) : tval :=
     let m := model_stream v in
     VL [VB (so_wire m); VL (map (fun a => VL [VN (fst a); VN (snd a)]) (so_wres m)); VL (map VB (so_reads m));
         VN (so_term m); VN (so_final m); vN_of_bool (so_broken m)]
-  else if k =? 3 then VL [VB (sink_up (fwd_mid v)); VB (sink_down (fwd_mid v)); VB (sink_up (fwd_final v)); VB (sink_down (fwd_final v))]
+  else if k =? 3 then VL [VB (sink_up (fwd_mid v)); VB (sink_down (fwd_mid v)); VB (sink_up (fwd_final v)); VB (sink_down (fwd_final v));
+                          VN (N.of_nat (sent_counter (fwd_final v))); VN (N.of_nat (recv_counter (fwd_final v)))]
+  else if k =? 4 then let m := model_fwdcut v in VL [VB (co_peer m); VB (co_local m); VN (co_sent m); VN (co_recv m)]
   else VL [VB (wire_id (vb (vnth 1 v))); VB (id_to_string (vb (vnth 2 v)))].
 Close Scope N_scope.
